@@ -1303,6 +1303,9 @@ class SimKernel:
             path = path.rstrip("/") or "/"
         sp = self._split_proc(path)
         self._acc(kind, path, sp[0] if sp else None, bool(sp))
+        if not path.startswith("/"):
+            # a relative name is looked up in the *caller's* directory
+            path = self.cfg.get("caller_cwd", "/").rstrip("/") + "/" + path
         return self._stat(path, sp, follow, 0)
 
     def _stat(self, path, sp, follow, depth):
